@@ -164,6 +164,12 @@ fn build(has: &dyn Fn(usize) -> bool, vals: &Vals, img_kind: usize, xml_mode: u8
 
 pub const N_FIELDS: usize = 34;
 
+/// all fields present, strings taken from `strings` starting at `s0`
+pub fn build_with(strings: &[String], s0: usize, img_kind: usize) -> Program {
+    let vals = Vals { strings: strings.to_vec(), s0, floats: vec![1.5, -0.0, f64::NAN, 1e300, f64::NEG_INFINITY], f0: s0 };
+    build(&|_| true, &vals, img_kind, 0)
+}
+
 /// a program with one cloud and one image using plain values (used as a base document elsewhere)
 pub fn build_public(has: &dyn Fn(usize) -> bool, img_kind: usize) -> Program {
     let vals = Vals { strings: vec!["plain".into(), "a&b".into(), "two words".into()], s0: 0, floats: vec![1.5, -2.25, 1e-3, 1234.5], f0: 0 };
